@@ -65,6 +65,8 @@ DYN = [
     ("D_txt", ["sid", "str"]),
     ("D_rag", ["int", "li", "dna"]),
     ("D_nest", ["int", "inner", "sid"]),
+    # integers beyond 2**53 (ids, hashes) and 32-bit edges, handed over as list / int64 / object array / pandas object column
+    ("D_big", ["bigint", "sid", "float", "int"]),
 ]
 
 
@@ -84,7 +86,7 @@ def _mods():
         a: int
         s: str
 
-    pytype = {"str": str, "sid": SequenceID, "int": int, "float": float, "bool": bool, "opt": Optional[int],
+    pytype = {"str": str, "sid": SequenceID, "int": int, "bigint": int, "float": float, "bool": bool, "opt": Optional[int],
               "li": List[int], "dna": DNAEncoding, "strand": StrandEncoding, "inner": Inner}
     classes = {}
     for name, kinds in DYN:
@@ -309,6 +311,8 @@ def cell(kind, s):
         return "id%03d" % s + "y" * (s % 3)      # varying width; order = order of the code
     if kind == "int":
         return s
+    if kind == "bigint":             # 32-bit edges and integers that no double represents (|x| > 2**53), injective in s
+        return [2 ** 31 - 1, 2 ** 31, 2 ** 32 + 1, 2 ** 53 + 1, 2 ** 62 + 3, -(2 ** 53) - 1, -(2 ** 31) - 1][s % 7] + 2 * (s // 7)
     if kind == "float":
         return s / 4
     if kind == "bool":
@@ -331,7 +335,7 @@ def canon_cell(kind, v):
         return float(v).hex()
     if kind == "inner":
         return [int(v[0]), str(v[1])]
-    if kind in ("int", "opt"):
+    if kind in ("int", "opt", "bigint"):
         return int(v)
     if kind == "bool":
         return bool(v)
@@ -344,6 +348,16 @@ def _column(m, kind, seeds):
     vals = [cell(kind, s) for s in seeds]
     if kind == "inner":
         return m["Inner"]([v[0] for v in vals], [v[1] for v in vals])
+    if kind == "bigint":
+        import pandas as pd
+        how = (sum(seeds) + len(seeds)) % 4 if len(seeds) else 1
+        if how == 0:
+            return [int(v) for v in vals]
+        if how == 1:
+            return np.array(vals, dtype=np.int64)
+        if how == 2:
+            return np.array(vals, dtype=object)
+        return pd.Series(vals, dtype=object)
     if kind in ("int", "opt"):
         return np.array(vals, dtype=int)
     if kind == "float":
@@ -511,9 +525,9 @@ def oracle(c):
 # ---------------------------------------------------------------- cases
 
 FINALS = ["tolist", "iter", "dict", "pandas", "tuples"]
-PREDABLE = {"sid", "int", "float", "opt"}      # fields whose `==`, `!=`, `np.isin` give a row mask
-SORTABLE = {"int", "float", "opt", "sid", "str", "dna"}
-ADDABLE = ["int", "str", "float"]
+PREDABLE = {"sid", "int", "float", "opt", "bigint"}      # fields whose `==`, `!=`, `np.isin` give a row mask
+SORTABLE = {"int", "float", "opt", "sid", "str", "dna", "bigint"}
+ADDABLE = ["int", "str", "float", "bigint"]
 
 
 def _single_ops(kinds, n, rng):
